@@ -12,6 +12,7 @@ import itertools
 from .. import core, harness, hooks, vloop
 
 PROP = 'C01'
+TECHNIQUE = ('runtime monitoring: invariant at the idle hook (sblock_queue.get() on an empty queue) - every CBlock output recomputed from the wiring spec by an independent oracle; exhaustive small topologies + random circuits')
 LEVEL = 'exploration'
 RULE = ("case = wiring spec (1..4 Input/Counter sources, CBlocks from {Not, And, Or, Xor, Override, "
         "Compare, FuncBlock unpack on/off} with inputs given by object / by name / '_not_NAME' / "
